@@ -316,23 +316,31 @@ P = {
        "umask set to 0 by the harness.",
   ref="DESIGN.md section 5 C19, section 0"),
  "C03": dict(
-  text="47 Lean theorems about the executable model of f64.Int/f128.Int (raw values with Go's wrap-around): Add/Sub exact, "
-       "Mul/Div/Mod = truncated exact result, Trunc/Ceil/Round (halves away from zero, both signs), Abs/Neg/Min/Max/Inc/Dec/"
-       "comparisons, f64/f128 agreement, integer From/As, Fraction, all under the property's representability hypotheses, "
-       "for every configuration of the regenerated multiplier table (multiplier_table: each = 10^places); restated over Q. "
-       "The model is run against all 16 configurations of both types on ~600k operations per quick run. SECOND TIE "
-       "(translator): on every run gossa/ssagen regenerates Lean definitions of the 48 integer functions of xmath/fixed and "
-       "xmath/fixed/f64 (D1..D16 Places/Multiplier, f64.Int Abs Add Ceil Dec Div Inc Max Min Mod Mul Round Sub Trunc, ...) from "
-       "the working tree (lean/Generated/SSA_F64.lean; the type parameter becomes a dictionary (Multiplier, Places)) and "
-       "Props/C03Gen.lean proves each equal to the hand-written model over BitVec 64, wrap-around included (54 theorems); the "
-       "same for 26 functions of xmath/fixed/f128 (lean/Generated/SSA_F128.lean, calls into xmath/num resolved to the "
-       "regenerated SSA_Num definitions, Int128.Div/Mod taken by the C01 model) in Props/C03Gen128.lean (31 theorems).",
+  text="145 Lean theorems. Props/C03.lean (60) about the executable model Model/Fixed.lean + Model/FixedFloat.lean of f64.Int/"
+       "f128.Int (raw values as integers with Go's wrap-around): Add/Sub exact; Mul/Div = exact result truncated toward zero "
+       "under the representability hypotheses (result and intermediate product); Mod = a - b*trunc(a/b) for EVERY operand pair "
+       "with a non-zero divisor (no intermediate-product hypothesis; the result always fits); Trunc/Ceil/Round (halves away from "
+       "zero, both signs); Abs/Neg/Min/Max/Inc/Dec/comparisons; f64/f128 agreement; integer From/As for every machine kind; "
+       "Fraction; 10 theorems on float From/As over the binary64 model; restatement over Q; for every configuration of the "
+       "regenerated multiplier table (multiplier_table: each = 10^places). The model is run against all 16 configurations of "
+       "both types on ~750k operations per quick run: areas fx (in-hypothesis, judged), fxwrap (overflow / zero divisor, model "
+       "drift only), fxfloatm (float paths bit for bit against the model), fxfloat (exact-rational oracle of the literal bound), "
+       "fxcfg, plus a direct f64/f128 twin comparison. TRANSLATOR TIES: on every run gossa/ssagen regenerates Lean definitions of "
+       "the integer functions of xmath/fixed + xmath/fixed/f64 (Generated/SSA_F64.lean; Props/C03Gen.lean, 55 theorems over "
+       "BitVec 64, wrap-around included; the type parameter becomes a dictionary (Multiplier, Places)) and of xmath/fixed/f128 "
+       "(Generated/SSA_F128.lean; Props/C03Gen128.lean, 30 theorems, calls into num.Int128 tied through C01Gen to the C01 model) "
+       "and proves each equal to the hand-written model.",
   note="the SSA translator (gossa) is trusted to render the integer fragment faithfully; From/As/CheckedAs, text methods and "
-       "Fraction are outside the translated fragment (correspondence only); a function of the committed list lean/Generated/expected_*.txt that a change "
-       "moves outside the fragment is reported as 'translator tie lost' (a VIOLATION ending in no-failing-input-found unless the "
-       "differential run supplies an input). float From/As error bound: implementation-side oracle against big.Rat only (no theorem; float32 kinds read with "
-       "relative bound 2^-23); wrap-around behaviour of "
-       "non-representable results is compared model-vs-code only.",
+       "Fraction are outside the translated fragment (correspondence only); a function of the committed list "
+       "lean/Generated/expected_*.txt that a change moves outside the fragment is reported as 'translator tie lost' (a VIOLATION "
+       "ending in no-failing-input-found unless the differential run supplies an input). Float From/As for the float64 kinds: "
+       "modelled and bounded by theorem under named contracts of strconv.ParseFloat, big.Float.Quo/Float64/Text and the C04 "
+       "text; only the float32 kinds have no bound theorem (modelled and compared bit for bit; literal bound judged by the "
+       "big.Rat oracle with relative part 2^-23). Wrap-around of non-representable results and division by zero are compared "
+       "model-vs-code only (recorded as model drift, never a violation); Mod is not among them: every Mod with a non-zero "
+       "divisor is judged. f64.From of an unsigned source >= 2^63 lies outside every theorem (never representable; Appendix B). "
+       "With build tag nooverlay (white-box accessor does not compile against the tree) f128 raw values go through "
+       "String()/FromString - exact, recorded as overlay_fallback.",
   ref="DESIGN.md section 5 C03, section 0"),
  "C07": dict(
   text="25 Lean theorems, generic over rectangle laws proved from C18 and instantiated at Int and Rat: after any history the ids "
